@@ -105,6 +105,7 @@ pub fn c07_judge(text: &str) -> Result<&'static str, Failure> {
 fn c07_test(raw: &RawAny, st: &mut Stats) -> Result<(), Failure> {
     let (text, fam) = any_text(raw);
     st.class(fam);
+    text_size_classes(&text, st);
     let rs = reference_stage(&text);
     st.class(rs);
     let stage = c07_judge(&text)?;
@@ -507,6 +508,7 @@ fn c14_nontrivial(stage: &str, states: usize, canon_len: usize) -> bool {
 fn c14_test(raw: &RawAny, st: &mut Stats) -> Result<(), Failure> {
     let (text, fam) = any_text(raw);
     st.class(fam);
+    text_size_classes(&text, st);
     let (stage, states) = c14_judge(&text, 4)?;
     st.class(&format!("outcome:{stage}"));
     if c14_nontrivial(stage, states, 64) && (stage != "validation-error" || text.len() > 40) {
